@@ -1,9 +1,96 @@
-import EphVerif.Model.Handshake
+import EphVerif.Lemmas.C20
 
+/-!
+C20 — inbound handshakes are accepted only with a valid key and valid PoW.
+
+`Handshake.run env (init t0, []) ops` is the node after an arbitrary history `ops` of handshakes
+(direct `perform_handshake`, the transport handler, the session layer's inbound path), clock
+advances of any size and dropped connections, together with the log of handshake events.
+`env.powValid` is an arbitrary predicate (claimed peer, offered key, nonce): the theorems hold
+whatever the proof-of-work check is; `keyValid` is `KeyExchange::validate_public`.
+-/
 namespace EphVerif.C20
 open EphVerif.Handshake
 
-/-- generated constant obligation: the reputation floor the property names -/
-theorem floor_eq : Gen.C20.repMinScore = -100 := by decide
+/-- generated constant obligations: the validity range of a public key and the reputation steps
+    the property and the code comments name -/
+theorem constants : Gen.C20.kPrime = 2147483647 ∧ Gen.C20.repMinScore = -100 ∧ Gen.C20.repFailurePenalty = 2 := by
+  decide
+
+/-- **C20.accept** — for every history of handshakes at any spacing (including repeats inside the
+    cooldown): a handshake that is accepted (returns true / is acknowledged / gets its session
+    registered) offered a valid public key and a nonce valid for (claimed peer, this node, that key). -/
+theorem accept (env : Env) (t0 : Int) (ops : List Op) :
+    ∀ e ∈ (run env (init t0, []) ops).2, e.accepted = true →
+      keyValid e.pub = true ∧ env.powValid e.peer e.pub e.nonce = true :=
+  (run_inv ops (init t0) [] (inv_init env t0) (by simp)).2
+
+/-- every key the node holds for a peer after any history — in the key manager or in the session
+    layer — was offered in a handshake with a valid key and a valid nonce for that peer -/
+theorem keys_validated (env : Env) (t0 : Int) (ops : List Op) (p : String) (k : Nat)
+    (h : ((run env (init t0, []) ops).1.peers p).sess = some k ∨
+         ((run env (init t0, []) ops).1.peers p).smKey = some k) :
+    keyValid k = true ∧ ∃ n, env.powValid p k n = true := by
+  have hi := (run_inv ops (init t0) [] (inv_init env t0) (by simp)).1 p
+  rcases h with h | h
+  · exact hi.2.1 k h
+  · exact hi.2.2 k h
+
+/-- **C20.reject** — in every state reachable by a history, a rejected handshake (of any kind)
+    leaves the key-manager key, the session-layer key and the session of *every* peer unchanged,
+    leaves every other peer's state untouched, and moves the claimed peer's reputation through one
+    failure step (invalid key) or two (invalid nonce). -/
+theorem reject (env : Env) (t0 : Int) (ops : List Op) (k : Kind) (p : String) (pub nonce : Nat) :
+    let s := (run env (init t0, []) ops).1
+    (handshake env s k p pub nonce).2 = false →
+    let s' := (handshake env s k p pub nonce).1
+    (∀ q, (s'.peers q).sess = (s.peers q).sess ∧ (s'.peers q).smKey = (s.peers q).smKey ∧
+          (s'.peers q).conn = (s.peers q).conn) ∧
+    (∀ q, q ≠ p → s'.peers q = s.peers q) ∧
+    ((s'.peers p).rep = repFailure (s.peers p).rep ∨
+     (s'.peers p).rep = repFailure (repFailure (s.peers p).rep)) := by
+  intro s h
+  exact handshake_false (run_inv ops (init t0) [] (inv_init env t0) (by simp)).1 h
+
+/-- **C20.reject**, reputation clause in the property's words: the claimed peer's reputation is
+    strictly lower afterwards unless it already sits at the floor, and never leaves `[-100, ..]`. -/
+theorem reject_lowers (env : Env) (t0 : Int) (ops : List Op) (k : Kind) (p : String) (pub nonce : Nat) :
+    let s := (run env (init t0, []) ops).1
+    (handshake env s k p pub nonce).2 = false →
+    let s' := (handshake env s k p pub nonce).1
+    (-100 < (s.peers p).rep → (s'.peers p).rep < (s.peers p).rep) ∧
+    ((s.peers p).rep ≤ -100 → (s'.peers p).rep = -100) ∧ -100 ≤ (s'.peers p).rep := by
+  intro s h s'
+  have hr := (reject env t0 ops k p pub nonce h).2.2
+  have e1 : ∀ x : Int, repFailure x = max (x - 2) (-100) := fun x => rfl
+  rcases hr with hr | hr
+  · show (-100 < (s.peers p).rep → (s'.peers p).rep < (s.peers p).rep) ∧ _
+    rw [show (s'.peers p).rep = repFailure (s.peers p).rep from hr, e1]
+    omega
+  · show (-100 < (s.peers p).rep → (s'.peers p).rep < (s.peers p).rep) ∧ _
+    rw [show (s'.peers p).rep = repFailure (repFailure (s.peers p).rep) from hr, e1, e1]
+    omega
+
+/-- the reputation failure step, as numbers -/
+theorem repFailure_eq (x : Int) : repFailure x = max (x - 2) (-100) := rfl
+
+/-! ### Non-vacuity: a cooldown-repeat history
+
+Cooldown 5 s; nonces 0 and 1 are valid, everything else is not.  A valid handshake, its exact repeat
+one second later (accepted by the short-circuit), then — still inside the cooldown — the same key
+with a wrong nonce, an invalid key, and another key with a wrong nonce through the transport and
+socket paths: all rejected, the registered key stays 12345, the reputation falls 1 → -3 → -5 → -9 → … -/
+def demoEnv : Env := { cooldown := 5, powValid := fun _ _ n => decide (n < 2) }
+
+def demoOps : List Op :=
+  [.hs .direct "p" 12345 0, .adv 1000000000, .hs .direct "p" 12345 0, .hs .direct "p" 12345 7,
+   .hs .transport "p" 1 0, .hs .socket "p" 777 9, .hs .direct "p" 12345 1]
+
+example : ((run demoEnv (init 0, []) demoOps).2.map (·.accepted)) = [true, true, false, false, false, true] := by
+  decide
+
+example : ((run demoEnv (init 0, []) demoOps).1.peers "p").sess = some 12345 ∧
+          ((run demoEnv (init 0, []) demoOps).1.peers "p").rep = -8 := by
+  decide
 
 end EphVerif.C20
